@@ -31,5 +31,6 @@ ClassView == ClassKey(Span(stab))
 GroupView == Span(stab)
 TypeOK == ValidStabilizer(N, stab)
 (* first visit of a class (invariants are evaluated on new states only): its BFS level is its minimal cost *)
-Dist == PrintT(ToJson([k |-> "D", id |-> IdOfGroup(N, Span(stab)), d |-> Len(path), path |-> path]))
+(* the class is named by the line of the (N, Conn) table whose graph lies in it (0-based, -1 if none) *)
+Dist == PrintT(ToJson([k |-> "D", id |-> LineOfGroup(N, Conn, Span(stab)) - 1, d |-> Len(path), path |-> path]))
 =============================================================================
